@@ -103,7 +103,7 @@ PROPS = {
         "engines": [direct("C18", sq=12, st=12), storm("admin", sq=4, st=4)],
         "rule": "direct engine: each evaluation is one (configuration accepted by the program's validate(), utilisation) pair evaluated with the real rate calculator; utilisations = every breakpoint +-{0,1,2} ulps, 0, 1, >1 and a random grid; distinct = (shape class, number of points, flat curve, point at 100%). admin engine (chain rig): every interest configuration an accepted instruction leaves on a bank (configure, interest-only configure with hostile / partial arguments by entitled and other signers) is judged structurally: zero-utilisation rate <= rates of the used points (strictly increasing utilisation, no point after padding) <= full-utilisation rate",
         "assumptions": ["legacy three-point curves are judged on [0,1] only (out-of-range utilisations are counted, not judged)"],
-        "floors": {"quick": {"C18.configs_accepted/valid-random": 200, "C18.configs_accepted/adjacent-utils": 200, "C18.configs_accepted/extreme-rates": 200, "C18.configs_accepted/legacy": 50, "C18.configured_points_checked": 2000, "C18.accepted_interest_configs/ConfigureBankInterestOnly": 300}},
+        "floors": {"quick": {"C18.configs_accepted/valid-random": 200, "C18.configs_accepted/adjacent-utils": 200, "C18.configs_accepted/extreme-rates": 200, "C18.configs_accepted/legacy": 50, "C18.configured_points_checked": 2000, "C18.accepted_interest_configs/ConfigureBankInterestOnly": 300, "C18.legacy_migrations_compared": 30}},
     },
     "C20": {
         "engines": [direct("C20", sq=10, st=10), storm("venue", sq=4, st=4), dict(storm("venue-wrapcheck", sq=2, st=2), profile="dbgassert")],
